@@ -651,7 +651,7 @@ pub fn msg_eq(p1: &[u8], l1: &Layout, p2: &[u8], l2: &Layout, ci: bool) -> bool 
 
 /// Lowercase dotted text form of the expanded name at `off` ('.' inside a
 /// label written as \046). Returns the length written into `out`.
-pub fn name_text(p: &[u8], off: usize, out: &mut [u8; 1024], lowercase: bool) -> usize {
+pub fn name_text(p: &[u8], off: usize, out: &mut [u8; 300], lowercase: bool) -> usize {
     let mut c = NameCur::new(p, off);
     let mut n = 0;
     let mut first = true;
@@ -793,7 +793,7 @@ pub enum Renamed {
 /// `n` (wire form): if `n` equals `source` (or, with `suffix`, ends with it on
 /// a label boundary), compared case-insensitively, that part is replaced by
 /// `target`; the result is written to `out`.
-pub fn rename_expected(n: &[u8], target: &[u8], source: &[u8], suffix: bool, out: &mut [u8; 600]) -> Renamed {
+pub fn rename_expected(n: &[u8], target: &[u8], source: &[u8], suffix: bool, out: &mut [u8; 256]) -> Renamed {
     let nl = n.len();
     let sl = source.len();
     if nl < sl || (!suffix && nl != sl) {
